@@ -31,6 +31,7 @@ type AbsKind struct {
 	Meta bool `json:"meta"`
 	URL  bool `json:"url"`
 	Dep  bool `json:"dep"` // deprecated: true
+	Bad  bool `json:"bad"` // the entry does not pass chart validation
 }
 
 type AbsQuery struct {
